@@ -687,9 +687,8 @@ impl Engine {
         let mut s = String::new();
         s.push_str("(reset)\n");
         s.push_str(&format!("(set-option :timeout {})\n", timeout_ms));
-        if self.cfg.seed != 0 {
-            s.push_str(&format!("(set-option :smt.random_seed {})\n(set-option :sat.random_seed {})\n(set-option :nlsat.seed {})\n", self.cfg.seed % 1000, self.cfg.seed % 1000, self.cfg.seed % 1000));
-        }
+        // (VERIF_SEED drives the harness's own subset choices and searches only; the solver runs with its default
+        //  seeds so that verdicts do not depend on the seed)
         let mut funs: BTreeSet<(&'static str, usize)> = BTreeSet::new();
         for &i in &seen {
             match &self.nodes[i as usize] {
@@ -1770,6 +1769,14 @@ pub fn stub_complex1(name: &str, re: Sym, im: Sym) -> Option<(Sym, Sym)> {
 pub fn stub_complex_pow(re: Sym, im: Sym, wre: Sym, wim: Sym) -> Option<(Sym, Sym)> {
     let third = matches!((wre.const_val(), wim.const_val()), (Some(CVal::R(a)), Some(CVal::R(b))) if a == Rat::new(1, 3).unwrap() && b.is_zero());
     if third { stub_complex1("ccbrt", re, im) } else { None }
+}
+
+/// A closed lemma over fresh values: decided on its own, without the path condition of the current path.
+pub fn prove_closed(label: &str, b: B) -> Proof {
+    let saved = with(|e| std::mem::take(&mut e.pc));
+    let r = prove(label, b);
+    with(|e| e.pc = saved);
+    r
 }
 
 /// Obligation that is discharged when both sides are the same arena node, and
